@@ -153,13 +153,9 @@ class World(object):
             name = 'ed25519c' if op == 'add_sub_sign' else 'cv25519a'
             sraw = K.raw(name, K.T0)
             sk = K.pgpy_secret(sraw)
-            if m.protected:
-                # a subkey joining a protected key is protected with the same passphrase first (as a user would)
-                sk.protect(PW, SymmetricKeyAlgorithm.AES128, HashAlgorithm.SHA256)
-                with sk.unlock(PW):
-                    key.add_subkey(sk, usage={KeyFlags.Sign} if op == 'add_sub_sign' else {KeyFlags.EncryptCommunications, KeyFlags.EncryptStorage}, created=t)
-            else:
-                key.add_subkey(sk, usage={KeyFlags.Sign} if op == 'add_sub_sign' else {KeyFlags.EncryptCommunications, KeyFlags.EncryptStorage}, created=t)
+            # (when the key is protected this runs inside its unlock scope: the new subkey itself is not protected - the key then has components in
+            # different protection states, which must survive the end of the scope, export and import like any other key)
+            key.add_subkey(sk, usage={KeyFlags.Sign} if op == 'add_sub_sign' else {KeyFlags.EncryptCommunications, KeyFlags.EncryptStorage}, created=t)
             self.sub_raws[name] = sraw
             m.subs.append({'kind': 'sign' if op == 'add_sub_sign' else 'enc', 'name': name, 'revoked': False})
         elif op in ('recert_A_P2', 'recert_A_P3_same_second', 'recert_A_P2_generic_same_second', 'recert_B_P3'):
